@@ -586,7 +586,7 @@ def run(tier, seed):
         out.notes.append("MODEL-DRIFT (outside C04, _from_element on a hand-written document): " + msg)
 
     # (c) code -> spec
-    n_rand = 1500 if tier == "quick" else 30000
+    n_rand = 1500 if tier == "quick" else 60000
     cases = driver(seed, n_rand, procs)
     phases["driver"] = round(timer.elapsed(), 1)
     bad, tstates, tchecked = validate_traces(cases, 500 if tier == "quick" else 2500, 4)
